@@ -82,6 +82,30 @@ def case_groups(switch_body):
     return groups
 
 
+# whole-text skeletons of the operator cases of expression_t::print (white space removed; embrace / embrace_strict -> EMB, every precedence
+# argument -> PREC, the operator texts of the nested switch -> LIT: those are translated separately): any other statement in one of these
+# cases -- a special case for some operand, an early return -- is outside what the printer model can express and stops the translation
+PRINT_SKELETONS = {
+    "PLUS": "if(PREC==PREC)EMB(os,old,get(0),PREC);elseEMB(os,old,get(0),PREC);switch(data->kind){caseFRACTION:LIT;casePLUS:LIT;caseMINUS:LIT;caseMULT:LIT;caseDIV:LIT;caseMOD:LIT;casePOW:LIT;caseBIT_AND:LIT;caseBIT_OR:LIT;caseBIT_XOR:LIT;caseBIT_LSHIFT:LIT;caseBIT_RSHIFT:LIT;caseAND:LIT;caseOR:LIT;caseLT:LIT;caseLE:LIT;caseEQ:LIT;caseNEQ:LIT;caseGE:LIT;caseGT:LIT;caseASSIGN:LIT;caseASS_PLUS:LIT;caseASS_MINUS:LIT;caseASS_DIV:LIT;caseASS_MOD:LIT;caseASS_MULT:LIT;caseASS_AND:LIT;caseASS_OR:LIT;caseASS_XOR:LIT;caseASS_LSHIFT:LIT;caseASS_RSHIFT:LIT;caseMIN:LIT;caseMAX:LIT;default:assert(0);}EMB(os,old,get(1),PREC);break;",
+    "ARRAY": "{autobase=*this;std::vector<expression_t>args;while(base.get_kind()==ARRAY){args.push_back(base.get(1));base=base.get(0);}if(base.get_kind()==IDENTIFIER&&base.get_symbol()!=symbol_t()&&base.get_symbol().get_type().is(PROCESS_SET)){base.print(os,old)<<'(';for(autoit=args.rbegin();it!=args.rend();++it)it->print(it==args.rbegin()?os:os<<\",\",old);os<<')';break;}EMB(os,old,get(0),PREC);get(1).print(os<<'[',old)<<']';break;}",
+    "UNARY_MINUS": "EMB(os<<'-',old,get(0),PREC);break;",
+    "POST_DECREMENT": "EMB(os,old,get(0),PREC)<<(get_kind()==POST_DECREMENT?\"--\":\"++\");break;",
+    "XOR": "os<<'(';get(0).print(os,old)<<\")xor(\";get(1).print(os,old)<<')';break;",
+    "PRE_DECREMENT": "os<<(get_kind()==PRE_DECREMENT?\"--\":\"++\");EMB(os,old,get(0),PREC);break;",
+    "NOT": "EMB(os<<'!',old,get(0),PREC);break;",
+    "INLINE_IF": "EMB(os,old,get(0),PREC)<<\"?\";EMB(os,old,get(1),PREC)<<\":\";EMB(os,old,get(2),PREC);break;",
+    "RATE": "EMB(os,old,get(0),PREC);os<<'\\'';break;"
+}
+
+
+def print_skeleton(code):
+    c = re.sub(r"\s+", "", code)
+    c = c.replace("embrace_strict(", "EMB(").replace("embrace(", "EMB(")
+    c = re.sub(r'case(\w+):os<<(?:\(old\?"[^"]*":)?"[^"]*"\)?;break;', r"case\1:LIT;", c)
+    c = re.sub(r"get_precedence\(\w+\)", "PREC", c)
+    return re.sub(r"\bprecedence\b", "PREC", c)
+
+
 FRAGMENT = ["PLUS", "MINUS", "MULT", "DIV", "MOD", "POW", "BIT_AND", "BIT_OR", "BIT_XOR", "BIT_LSHIFT", "BIT_RSHIFT", "AND", "OR", "XOR",
             "LT", "LE", "EQ", "NEQ", "GE", "GT", "MIN", "MAX", "ASSIGN", "ASS_PLUS", "ASS_MINUS", "ASS_DIV", "ASS_MOD", "ASS_MULT",
             "ASS_AND", "ASS_OR", "ASS_XOR", "ASS_LSHIFT", "ASS_RSHIFT", "ARRAY", "UNARY_MINUS", "NOT", "POST_INCREMENT", "POST_DECREMENT",
@@ -142,6 +166,8 @@ def extract(repo="/repo"):
                         mode += "@" + m.group(3)       # compared against the precedence of another kind
                     ops.append((int(m.group(2)), mode))
             return ops
+        if labels and labels[0] in PRINT_SKELETONS and print_skeleton(code) != PRINT_SKELETONS[labels[0]]:
+            raise TranslateError("print: the case of %s contains code the printer model does not describe: %r" % (labels[0], print_skeleton(code)[:400]))
         per_kind = {l: operands(l) for l in labels}
         ops = per_kind[labels[0]] if labels else []
         if "XOR" in labels:
